@@ -398,8 +398,76 @@ func cbOrderScenario(name, kind string) Scenario {
 	}}
 }
 
+// (7) C02 / C10: the payload limit is a limit per message: many small messages, adding up to far more, all arrive
+func manySmallScenario(name, kind string, upgraded bool) Scenario {
+	return Scenario{Name: name, Run: func(t *testing.T, rec *Rec, g *Gates) {
+		cfg := EngCfg{PI: 25 * time.Second, PT: 20 * time.Second, MaxBuf: 500, WT: true}
+		w := newEngWorld(t, rec, g, cfg)
+		sc := &Script{w: w, r: rand.New(rand.NewSource(1)), cfg: cfg, W: map[string]int{}}
+		dial := func(s *Sess, on func(*WSClient, Pkt)) *WSClient {
+			if kind == "webtransport" {
+				return w.DialWT(s, on)
+			}
+			return w.DialWS(s, "", nil, on)
+		}
+		var c *cliSess
+		if upgraded {
+			s, _ := w.Handshake(4, false, false, ReqOpt{})
+			c = &cliSess{S: s, Kind: "polling", autoPong: true}
+			sc.ss = append(sc.ss, c)
+			cand := dial(s, nil)
+			sc.settle()
+			cand.SendPkt(Pkt{Type: "ping", Data: []byte("probe")})
+			sc.settle()
+			cand.SendPkt(Pkt{Type: "upgrade"})
+			sc.settle()
+			if so := w.Sock(s.Sid); so != nil && so.Upgraded() {
+				c.Kind, c.ws = "websocket", cand
+				cand.OnPkt = func(wc *WSClient, p Pkt) { sc.processPkts(c, []Pkt{p}, wc) }
+			}
+		} else if kind == "polling" {
+			s, _ := w.Handshake(4, false, false, ReqOpt{})
+			c = &cliSess{S: s, Kind: "polling", autoPong: true}
+			sc.ss = append(sc.ss, c)
+		} else {
+			s := &Sess{Proto: 4}
+			c = &cliSess{S: s, Kind: "websocket", autoPong: true}
+			c.ws = dial(s, func(wc *WSClient, p Pkt) { sc.processPkts(c, []Pkt{p}, wc) })
+			sc.ss = append(sc.ss, c)
+		}
+		sc.settle()
+		if c.S.Sid == "" {
+			w.Finish()
+			return
+		}
+		for i := 0; i < 40; i++ {
+			m := w.ClientMsg(100+i%50, i%3 == 0, 0)
+			if c.Kind == "polling" {
+				c.posts = append(c.posts, w.Post(c.S, []Pkt{m}, ReqOpt{}))
+			} else {
+				c.ws.SendPkt(m)
+			}
+			sc.settle()
+			if i%10 == 9 {
+				w.Expect(c.S.Sid, "open")
+				w.Expect(c.S.Sid, "delivered")
+			}
+		}
+		sc.Drain()
+		w.Finish()
+	}}
+}
+
 func directFamily() []Scenario {
 	var out []Scenario
+	for _, kind := range []string{"polling", "websocket", "webtransport"} {
+		for _, up := range []bool{false, true} {
+			if kind == "polling" && up {
+				continue
+			}
+			out = append(out, manySmallScenario(fmt.Sprintf("manysmall_%s_u%v", kind, up), kind, up))
+		}
+	}
 	// (websocket only: the polling transport runs send callbacks under its send mutex, parking one there stalls the next send)
 	out = append(out, cbOrderScenario("cborder_websocket", "websocket"))
 	for _, after := range []bool{false, true} {
